@@ -48,6 +48,8 @@ type c05View struct {
 
 type c05Shape struct {
 	Ring   []int64 `json:"ring"`
+	Cap    int     `json:"cap"`   // len(txRing.txIDs)
+	First  int     `json:"first"` // txRing.txIDFirst
 	Chunks []int   `json:"chunks"`
 	MM     int     `json:"mm"`
 }
@@ -418,10 +420,11 @@ func (w *c05Worker) checkShape(shape map[string]c05Shape, idOff uint64, where st
 		ms := w.db.head.series.getByHash(ls.Hash(), ls)
 		var ring []int64
 		var chunks []int
-		mm := 0
+		mm, rcap, rfirst := 0, 0, 0
 		if ms != nil {
 			ms.Lock()
 			if ms.txs != nil {
+				rcap, rfirst = len(ms.txs.txIDs), int(ms.txs.txIDFirst)
 				it := ms.txs.iterator()
 				for i := uint32(0); i < ms.txs.txIDCount; i++ {
 					ring = append(ring, int64(it.At()-idOff))
@@ -445,6 +448,9 @@ func (w *c05Worker) checkShape(shape map[string]c05Shape, idOff uint64, where st
 		}
 		if fmt.Sprint(chunks) != fmt.Sprint(sh.Chunks) && !(len(chunks) == 0 && len(sh.Chunks) == 0) {
 			return &c05Fail{"drift", "", fmt.Sprintf("%s: series %s chunk sizes %v, model %v", where, s, chunks, sh.Chunks)}
+		}
+		if rcap != sh.Cap || (len(ring) > 0 && rfirst != sh.First) {
+			return &c05Fail{"drift", "", fmt.Sprintf("%s: series %s physical ring cap=%d first=%d, model cap=%d first=%d", where, s, rcap, rfirst, sh.Cap, sh.First)}
 		}
 		if mm != sh.MM {
 			return &c05Fail{"drift", "", fmt.Sprintf("%s: series %s m-mapped chunks %d, model %d", where, s, mm, sh.MM)}
